@@ -37,11 +37,12 @@ type Stats struct {
 	GuardOverrun  map[string]int64 // engine call sites that wrote past len() of a caller's slice
 	CombosNonTriv map[string]struct{}
 	CombosAll     map[string]struct{}
+	NoTSCases     map[string]int64 // engine/api/mode/stored-length class: elements read through an iterator
 }
 
 func newStats() *Stats {
 	return &Stats{Ops: map[string]int64{}, Batches: map[string]int64{}, GuardOverrun: map[string]int64{},
-		CombosNonTriv: map[string]struct{}{}, CombosAll: map[string]struct{}{}}
+		CombosNonTriv: map[string]struct{}{}, CombosAll: map[string]struct{}{}, NoTSCases: map[string]int64{}}
 }
 
 func (s *Stats) merge(o *Stats) {
@@ -59,6 +60,9 @@ func (s *Stats) merge(o *Stats) {
 	}
 	for k := range o.CombosAll {
 		s.CombosAll[k] = struct{}{}
+	}
+	for k, v := range o.NoTSCases {
+		s.NoTSCases[k] += v
 	}
 	s.PointReads += o.PointReads
 	s.IterChecks += o.IterChecks
@@ -538,6 +542,9 @@ func (r *runner) openIter(s IterSpec) (*engine.RangeLimitedIterator, func(), err
 		err = fmt.Errorf("unknown ctor %q", s.Ctor)
 	}
 	chk()
+	if err == nil && it != nil && s.NoTS != 0 {
+		it.NoTimestamp(s.NoTS)
+	}
 	return it, chk, err
 }
 
@@ -592,8 +599,31 @@ func (r *runner) iterCheck(s IterSpec) {
 		r.iterErr(err, s, s.Min, s.Max)
 		return
 	}
+	for _, e := range exp {
+		r.st.NoTSCases[r.name+"/range/"+noTSName(s.NoTS)+"/"+lenClass(len(r.md.m[string(e.K)]))]++
+	}
 	if sameKVs(exp, got) {
 		return
+	}
+	if len(exp) == len(got) {
+		// same keys in the same order, a value differs: the range logic is right, the value accessor is not
+		first := -1
+		for i := range exp {
+			if !bytes.Equal(exp[i].K, got[i].K) {
+				first = -2
+				break
+			}
+			if first == -1 && !bytes.Equal(exp[i].V, got[i].V) {
+				first = i
+			}
+		}
+		if first >= 0 {
+			stored := r.md.m[string(exp[first].K)]
+			r.report(fmt.Sprintf("iter-value/%s/nots=%s/%s%s", r.name, noTSName(s.NoTS), lenClass(len(stored)), r.nulTag(nil, s.Min, s.Max)),
+				fmt.Sprintf("%s: %s with NoTimestamp(%d) [%s]: key %s holds %s (%d bytes): expected value %s, iterator returned %s", r.name, s.Ctor, s.NoTS, noTSName(s.NoTS), q(exp[first].K), q(stored), len(stored), q(exp[first].V), q(got[first].V)),
+				map[string]interface{}{"iter": s, "key": q(exp[first].K), "stored": q(stored), "expected": q(exp[first].V), "got": q(got[first].V)})
+			return
+		}
 	}
 	detail := map[string]interface{}{"iter": s, "expected": fmtKVs(exp), "got": fmtKVs(got), "store": fmtKVs(r.md.sorted())}
 	base := fmt.Sprintf("%s: %s min=%s max=%s %s %s offset=%d count=%d: expected %v got %v", r.name, s.Ctor, q(s.Min), q(s.Max), typeName(s.Type), dirName(s.Reverse), s.Offset, s.Count, fmtKVs(exp), fmtKVs(got))
@@ -634,7 +664,10 @@ func (r *runner) walk(rd *Read) {
 		return
 	}
 	defer raw.Close() // also runs when a positioning call panics: releases the engine read lock
-	all := r.md.sorted()
+	if rd.WalkNoTS != 0 {
+		raw.NoTimestamp(rd.WalkNoTS)
+	}
+	all := stripAll(r.md.sorted(), rd.WalkNoTS)
 	pos := -1
 	var trace []string
 	var targets [][]byte
@@ -675,6 +708,18 @@ func (r *runner) walk(rd *Read) {
 		}
 		ok := valid == (pos >= 0)
 		if ok && valid {
+			stored := r.md.m[string(all[pos].K)]
+			r.st.NoTSCases[r.name+"/raw/"+noTSName(rd.WalkNoTS)+"/"+lenClass(len(stored))]++
+			if bytes.Equal(gk, all[pos].K) && !bytes.Equal(gv, all[pos].V) {
+				r.report(fmt.Sprintf("iter-value/%s/nots=%s/%s%s", r.name, noTSName(rd.WalkNoTS), lenClass(len(stored)), r.nulTag(nil, targets...)),
+					fmt.Sprintf("%s: raw iterator with NoTimestamp(%d) [%s] at key %s holding %s (%d bytes): expected value %s, Value() returned %s", r.name, rd.WalkNoTS, noTSName(rd.WalkNoTS), q(gk), q(stored), len(stored), q(all[pos].V), q(gv)),
+					map[string]interface{}{"key": q(gk), "stored": q(stored), "expected": q(all[pos].V), "got": q(gv)})
+				return
+			}
+			if rv := raw.RefValue(); !bytes.Equal(rv, gv) {
+				r.report("iter-ref-mismatch/"+r.name, fmt.Sprintf("%s: raw iterator Value %s differs from RefValue %s at key %s (NoTimestamp mode %s)", r.name, q(gv), q(rv), q(gk), noTSName(rd.WalkNoTS)), nil)
+				return
+			}
 			ok = bytes.Equal(gk, all[pos].K) && bytes.Equal(gv, all[pos].V)
 		}
 		step := mv.M
